@@ -59,29 +59,32 @@ def point_manifest_at_repo(crate_dir):
         open(p, 'w').write(s2)
 
 
-def build_driver():
-    """(Re)build the driver against /repo's current working tree with hooks on. ~60 s cold, ~5-15 s warm."""
+def build_driver(release=False):
+    """(Re)build the driver against /repo's current working tree with hooks on. ~60 s cold, ~5-15 s warm.
+    release=True builds the profile users run (overflow checks off, optimised): used by the thorough tier's replays."""
     global _driver
-    if _driver:
-        return _driver
+    key = 'release' if release else 'debug'
+    if _driver and key in _driver:
+        return _driver[key]
+    _driver = _driver or {}
     d = os.path.join(VERIF, 'driver')
     lock = os.path.join(d, 'Cargo.lock')
     point_manifest_at_repo(d)
     shutil.copyfile(os.path.join(REPO, 'Cargo.lock'), lock)
     t0 = time.time()
-    p = subprocess.run(['cargo', 'build', '--target-dir', os.path.join(TARGET, 'driver')], cwd=d, env=cargo_env(),
+    p = subprocess.run(['cargo', 'build', '--target-dir', os.path.join(TARGET, 'driver')] + (['--release'] if release else []), cwd=d, env=cargo_env(),
                        capture_output=True, text=True)
     if p.returncode != 0:
         log(p.stderr[-4000:])
         raise Inconclusive('driver build against /repo failed (does /repo compile with --cfg risinglight_verif?)')
-    log('driver built in %.1fs' % (time.time() - t0))
-    _driver = os.path.join(TARGET, 'driver', 'debug', 'rl')
-    return _driver
+    log('driver (%s) built in %.1fs' % (key, time.time() - t0))
+    _driver[key] = os.path.join(TARGET, 'driver', key, 'rl')
+    return _driver[key]
 
 
-def rl(cmd, inp=None, timeout=120):
+def rl(cmd, inp=None, timeout=120, release=False):
     """Run a driver sub-command; returns (list of JSON lines, returncode, stderr)."""
-    exe = build_driver()
+    exe = build_driver(release)
     env = dict(os.environ)
     env['RUST_BACKTRACE'] = '0'
     try:
